@@ -166,6 +166,9 @@ pub fn generate_c15(thorough: bool, seed: u64, part: (usize, usize), em: &mut Em
         if r.chance(1, 4) { flags |= 0x80000000 | 0x00020000; }
         // both character-set bits (servers that echo the client's capability set): Unicode wins (MS-NLMP 2.2.2.5)
         if i % 6 == 1 { flags |= 2; }
+        // flag bits that mean something under NTLMv1 only (REQUEST_NON_NT_SESSION_KEY, LM_KEY) or nothing to the
+        // computation (IDENTIFY): under NTLMv2 the key exchange key is the session base key all the same
+        if i % 9 == 4 { flags |= *r.pick(&[0x00400000u32, 0x00400000, 0x00400080, 0x00100000, 0x00000080]); }
         let sc = { let b = r.bytes(8); let mut a = [0u8; 8]; a.copy_from_slice(&b); a };
         let ti = target_info(&mut r, true);
         let md = if i % 5 == 3 { *r.pick(&[4u16, 1, 100, 0xfff0]) } else { 0 };
